@@ -272,6 +272,9 @@ def symmetry_stream(rep, r, n):
             fx, fy = f(img[:, ::-1])
             tx, ty = f(img.T)
             kx, ky = f(img * 4.0)
+            # calibrated flux units: tiny / huge positive scales (exact powers of two; the moment-based and quadratic centroids are
+            # scale-free, the Gaussian fitters are left out because their convergence tolerances are absolute)
+            ex = [(x, y), (x, y)] if f in (centroid_1dg, centroid_2dg) else [f(img * 2.0 ** -60), f(img * 2.0 ** 40)]
             m = np.zeros(img.shape, bool)
             m[0, 0] = m[-1, -1] = True
             p = img.copy()
@@ -285,6 +288,7 @@ def symmetry_stream(rep, r, n):
                   ('flip', close(fx, nx - 1 - x, tol) and close(fy, y, tol)),
                   ('transpose', close(tx, y, tol) and close(ty, x, tol)),
                   ('rescale', close(kx, x, tol) and close(ky, y, tol)),
+                  ('rescale-extreme', all(close(e_[0], x, tol) and close(e_[1], y, tol) for e_ in ex)),
                   ('mask-blind', close(mx, mx0, tol) and close(my, my0, tol))]
         for name, ok in checks:
             if not ok:
